@@ -198,7 +198,7 @@ qbetype(struct type *t)
 	case 2: return t->u.basic.issigned ? sh : uh;
 	case 4: return t->prop & PROPFLOAT ? s : w;
 	case 8: return t->prop & PROPFLOAT ? d : l;
-	case 16: fatal("long double is not yet supported");
+	case 16: error(&tok.loc, "long double is not yet supported");
 	}
 	assert(0);
 }
@@ -269,7 +269,7 @@ convert(struct func *f, struct type *dst, struct type *src, struct value *l)
 	if (dst->kind == TYPEVOID)
 		return NULL;
 	if (src->kind == TYPELDOUBLE || dst->kind == TYPELDOUBLE)
-		fatal("long double is not yet supported");
+		error(&tok.loc, "long double is not yet supported");
 	if (!(src->prop & PROPREAL) || !(dst->prop & PROPREAL))
 		fatal("internal error; unsupported conversion");
 	if (dst->kind == TYPEBOOL) {
